@@ -16,6 +16,7 @@
 #include <pistache/peer.h>
 #include <pistache/transport.h>
 
+#include <algorithm>
 #include <cstring>
 #include <ctime>
 #include <iomanip>
@@ -442,7 +443,9 @@ namespace Pistache::Http
             // This is the first time we are reading the payload
             else
             {
-                message->body_.reserve(contentLength);
+                // reserve no more than what has actually arrived: Content-Length is
+                // chosen by the peer and may be far above the configured maximum
+                message->body_.reserve(std::min<uint64_t>(contentLength, cursor.remaining()));
                 if (!readBody(contentLength))
                     return State::Again;
             }
@@ -483,7 +486,6 @@ namespace Pistache::Http
             if (size == 0)
                 return Final;
 
-            message->body_.reserve(size);
             StreamCursor::Token chunkData(cursor);
             const ssize_t available = cursor.remaining();
             // chunk data still missing (the CRLF after it is handled below)
